@@ -23,6 +23,7 @@ logging.disable(logging.CRITICAL)
 
 from traits.api import Dict, HasTraits, Instance, Int, List, Set, Str  # noqa: E402
 from traits.observation import expression as X  # noqa: E402
+from traits.observation._filtered_trait_observer import FilteredTraitObserver  # noqa: E402
 from traits.observation._observer_change_notifier import ObserverChangeNotifier  # noqa: E402
 from traits.observation._trait_event_notifier import TraitEventNotifier  # noqa: E402
 from traits.observation.events import (  # noqa: E402
@@ -32,14 +33,22 @@ from traits.trait_list_object import TraitList  # noqa: E402
 from traits.trait_set_object import TraitSet  # noqa: E402
 
 EXN = ["NotifierNotFound"]
-FN = {0: "value", 1: "f", 2: "g", 3: "kids", 4: "m", 5: "s"}
+FN = {0: "value", 1: "f", 2: "g", 3: "kids", 4: "m", 5: "s", 10: "trait_added", 11: "trait_modified"}
 NF = {v: k for k, v in FN.items()}
+
+
+def match_fg(name, trait):
+    return name in ("f", "g")
+
+
+def match_vk(name, trait):
+    return name in ("value", "kids")
 
 
 class N(HasTraits):
     value = Int()
-    f = Instance(HasTraits)
-    g = Instance(HasTraits)
+    f = Instance(HasTraits, tag=True)
+    g = Instance(HasTraits, tag=True)
     kids = List(Instance(HasTraits))
     m = Dict(Str, Instance(HasTraits))
     s = Set(Instance(HasTraits))
@@ -48,7 +57,15 @@ class N(HasTraits):
 def build_expr(g):
     """g = [field, notify, optional, [children]] -> ObserverExpression (public expression API)."""
     f, notify, optional, children = g
-    if f <= 5:
+    if f == "anytrait":
+        e = X.anytrait(notify=bool(notify))
+    elif f == "tag":
+        e = X.metadata("tag", notify=bool(notify))
+    elif f == "match_fg":
+        e = X.match(match_fg, notify=bool(notify))
+    elif f == "match_vk":
+        e = X.match(match_vk, notify=bool(notify))
+    elif f <= 5:
         e = X.trait(FN[f], notify=bool(notify), optional=bool(optional))
     elif f == 6:
         e = X.list_items(notify=bool(notify), optional=bool(optional))
@@ -152,7 +169,14 @@ class World:
         nm, users = 0, []
         for n in notifiers or []:
             if isinstance(n, ObserverChangeNotifier):
-                nm += 1
+                if "TraitAddedObserver" in getattr(n.observer_handler, "__qualname__", ""):
+                    continue          # trait_added extra graphs are outside the model
+                node = n.graph.node
+                if isinstance(node, FilteredTraitObserver):
+                    # the model holds one named-trait maintainer per matching trait name
+                    nm += sum(1 for name, t in self.pool[0].traits().items() if node.filter(name, t))
+                else:
+                    nm += 1
             elif isinstance(n, TraitEventNotifier):
                 key = self.hkey.get(id(n.handler()), (99, 99))
                 users.append([key[0], key[1], n._ref_count])
